@@ -12,8 +12,9 @@ from typing import Dict, List, Optional, Set, Tuple
 
 from ..index import AnalysisError, ClassInfo, FunctionInfo, call_name, norm, norm1, parent_map, walk_no_nested
 from .attrs import guarded_by_hasattr, self_loads
-from .common import enclosing, fctx, in_body, is_name, method_calls, stmts
+from .common import const_of, enclosing, fctx, in_body, is_name, method_calls, stmts
 
+from ..sem import Sem
 from .groups import check_group_trace
 
 LEVEL = "other"
@@ -152,13 +153,14 @@ def run(ctx) -> None:
     # ---------------------------------------------------------------- R04.3
     r3 = ctx.rule("R04.3", "the random unitary acts on degenerate column blocks of the eigenvectors only")
     r3.instance(f"{uuk.short}: gauge rotation")
+    US = Sem(idx, uuk)
     rot = [s for s in ast.walk(br) if isinstance(s, ast.Assign) and isinstance(s.targets[0], ast.Subscript)
-           and "unitary_group" in norm(s.value)]
+           and "unitary_group" in US.rnorm(s.value, US.cfg.node(s))]
     if len(rot) != 1:
         raise AnalysisError("Data_K.UU_K: the random rotation statement `_UU[ik,:,ib1:ib2] = … .dot(unitary_group.rvs(…))` not found")
     st = rot[0]
     tgt = st.targets[0]
-    lhs, val = norm(tgt), st.value
+    lhs, val = norm(tgt), US.resolve(st.value, US.cfg.node(st))
     okshape = isinstance(val, ast.Call) and isinstance(val.func, ast.Attribute) and val.func.attr in ("dot", "__matmul__") \
         and norm(val.func.value) == lhs
     r3.check(okshape or (isinstance(val, ast.BinOp) and isinstance(val.op, ast.MatMult) and norm(val.left) == lhs),
@@ -180,8 +182,13 @@ def run(ctx) -> None:
     deg = cls.methods.get("degen")
     if deg is None:
         raise AnalysisError("Data_K.degen vanished")
-    dt = norm(deg.node).replace(" ", "")
-    r3.check("E[1:]-E[:-1]>self.degen_thresh_random_gauge" in dt and "ib2-ib1>1" in dt,
+    from .c15 import _border_signature
+    sig = _border_signature(deg)
+    cmpn = sig.get("cmp_node")
+    thr_ok = cmpn is not None and norm(cmpn.comparators[0]) == "self.degen_thresh_random_gauge" and sig["cmp"] == "Gt"
+    multi = [c_ for c_ in ast.walk(deg.node) if isinstance(c_, ast.Compare) and len(c_.ops) == 1 and isinstance(c_.ops[0], ast.Gt)
+             and isinstance(c_.left, ast.BinOp) and isinstance(c_.left.op, ast.Sub) and const_of(c_.comparators[0]) == 1]
+    r3.check(thr_ok and bool(sig["plus1"]) and bool(sig["start0"]) and bool(sig["endlen"]) and bool(sig["pairs"]) and len(multi) == 1,
              "degenerate groups: borders where the gap exceeds the threshold; singletons skipped", deg, deg.node.body[-1],
              "Data_K.degen no longer splits at gaps larger than degen_thresh_random_gauge / keeps only multiplets",
              stmt="degen body")
@@ -189,7 +196,25 @@ def run(ctx) -> None:
     r3.check(len(ret) == 1 and norm(ret[0].value) == norm(tgt.value), "the rotated matrix is what UU_K returns", uuk,
              ret[0] if ret else uuk.node, f"UU_K returns `{norm1(ret[0].value) if ret else None}`, not the rotated `{norm1(tgt.value)}`")
     rotm = cls.methods.get("_rotate")
-    r3.check(rotm is not None and norm(rotm.node).count("self.UU_K") == 2 and ".conj()" in norm(rotm.node),
+    okrot = False
+    if rotm is not None:
+        RS = Sem(idx, rotm)
+        rr = [s_ for s_ in stmts(rotm.node) if isinstance(s_, ast.Return) and s_.value is not None]
+        if len(rr) == 1:
+            v_ = RS.resolve(rr[0].value, RS.cfg.node(rr[0]))
+            if isinstance(v_, ast.Call) and call_name(v_).endswith("einsum") and len(v_.args) == 4 and isinstance(v_.args[0], ast.Constant):
+                spec = str(v_.args[0].value).replace(" ", "")
+                try:
+                    ins, out_ = spec.split("->")
+                    o1, o2, o3 = [x.replace("...", "") for x in ins.split(",")]
+                    oo = out_.replace("...", "")
+                    okspec = len(o1) == len(o3) == 3 and len(o2) >= 3 and o1[0] == o2[0] == o3[0] == oo[0] and o1[1] == o2[1] and o3[1] == o2[2] \
+                        and oo[1] == o1[2] and oo[2] == o3[2]
+                except Exception:
+                    okspec = False
+                okrot = okspec and norm(v_.args[1]) in ("self.UU_K.conj()", "np.conj(self.UU_K)", "self.UU_K.conjugate()") and norm(v_.args[3]) == "self.UU_K" \
+                    and norm(v_.args[2]) == rotm.params[1]
+    r3.check(okrot,
              "_rotate uses U† X U with the same (rotated) UU_K", rotm or uuk, (rotm or uuk).node,
              "Data_K._rotate does not sandwich with UU_K† … UU_K", stmt="_rotate body")
 
